@@ -406,7 +406,7 @@ func checkC13(p *Prog, r *Report) {
 			if len(ret.Results) == 0 {
 				continue
 			}
-			v := ret.Results[0]
+			v := res(ret, 0)
 			if u, ok := v.(*ssa.UnOp); ok {
 				if sv := localLoadValue(u); sv != nil {
 					v = sv
